@@ -392,6 +392,7 @@ fn run_cycles(src: &str, lvl: u8, a: u8, b: u8) -> Result<(Vec<u64>, Vec<u8>, St
     img.push(m.x);
     img.push(m.y);
     img.push(m.sp);
+    img.push(m.a); // csleep must leave the accumulator alone too (load(); csleep(); store() idiom)
     Ok((deltas, img, listing(&obs)))
 }
 
